@@ -49,6 +49,21 @@ BASES = {
     "treeinfo:flat": ("treeinfo", lambda: TI.dumps(TI.build(TI.seed_flat()))),
     "discinfo": ("discinfo", lambda: MISC.discinfo().dumps()),
 }
+def get_base(base):
+    """a named base document, or '["univ", fmt, seed, [edits]]': the document written for a state of the format's universe"""
+    if base in BASES:
+        return BASES[base]
+    _, fmt, seed, edits = json.loads(base)
+    mod = {"ci": CI, "im": IM, "ti": TI}[fmt]
+
+    def build():
+        spec = dict(mod.SEEDS)[seed]()
+        for e in edits:
+            spec = mod.apply_spec(spec, e)
+        return TI.dumps(mod.build(spec)) if fmt == "ti" else mod.build(spec).dumps()
+    return {"ci": "composeinfo", "im": "images", "ti": "treeinfo"}[fmt], build
+
+
 QUICK = ["composeinfo:forest", "composeinfo:layered", "images:grid", "images:v11", "rpms", "modules", "extra_files",
          "treeinfo:nested", "treeinfo:layered", "discinfo"]
 
@@ -171,7 +186,7 @@ def older_json(fmt, doc, ver):
 def eval_json(base, op, ver=None):
     """op = ['set', path, value] | ['del', path] | ['hdr', type, version]; ver: the corrupted document is first re-expressed in
     that older format version (-> {'load': 'not-carried'} when the older format has no place for the corrupted value)"""
-    fmt, build = BASES[base]
+    fmt, build = get_base(base)
     doc = json.loads(build())
     kind = op[3] if op[0] == "set" and len(op) > 3 else None
     if ver is not None and op[0] == "del":
@@ -267,7 +282,7 @@ def ti_ops(text):
 
 
 def eval_ti(base, op, ver=None):
-    fmt, build = BASES[base]
+    fmt, build = get_base(base)
     sections = [(n, [(k, v) for k, v in opts if not k.startswith(";")]) for n, opts in ini.parse(build())]
     if ver is not None:
         from mc.models import legacy
@@ -322,7 +337,17 @@ def eval_di(lines):
 # ---- exploration --------------------------------------------------------------------------------
 
 def units(tier, seed):
-    return [("base", b) for b in (QUICK if tier == "quick" else sorted(BASES))]
+    us = [("base", b) for b in (QUICK if tier == "quick" else sorted(BASES))]
+    if tier == "thorough":
+        # the document written for every state within one edit of every seed is a base document, too
+        for fmt, mod in (("ci", CI), ("im", IM), ("ti", TI)):
+            for name, mk in mod.SEEDS:
+                edits = mod.edits(mk())
+                k = seed % max(len(edits), 1)
+                edits = edits[k:] + edits[:k]
+                for i in range(0, len(edits), 6):
+                    us.append(("univ", fmt, name, edits[i:i + 6]))
+    return us
 
 
 def _judge_value(base, label, path, kind, value, o, acc, ver=None):
@@ -350,8 +375,17 @@ def eval_degenerate(fmt, text):
 
 
 def run_unit(unit, acc):
+    if unit[0] == "univ":
+        _, f, name, edits = unit
+        for e in edits:
+            base = json.dumps(["univ", f, name, [e]])
+            r = call(get_base(base)[1])
+            if r[0] != "ok" or load_outcome(get_base(base)[0], r[1])["load"] != "ok":
+                continue                                # (no valid document for this state)
+            run_unit(("base", base), acc)
+        return
     base = unit[1]
-    fmt, build = BASES[base]
+    fmt, build = get_base(base)
     for text in DEGENERATE["json" if fmt not in ("treeinfo", "discinfo") else fmt]:
         o = eval_degenerate(fmt, text)                       # documents with (almost) nothing in them lack every required section
         acc.ev()
